@@ -1,6 +1,7 @@
 """Rules C01-c (allocation bounded by the input) and C01-d (division by a font-supplied value)."""
 import guards
 import origins
+import re
 import sym
 from facts import callee_is
 
@@ -81,11 +82,19 @@ def local_bound(b, prov, use_bb, op):
     return None
 
 
+DIV_CALL = re.compile(r"^<&?(u8|u16|u32|u64|u128|usize|i8|i16|i32|i64|i128|isize) as std::ops::(Div|Rem|DivAssign|RemAssign)(?:<[^>]*>)?>::\w+$")
+DIV_HELPER = re.compile(r"core::num::<impl (u8|u16|u32|u64|u128|usize|i8|i16|i32|i64|i128|isize)>::(div_euclid|rem_euclid|div_ceil|next_multiple_of|div_floor)$")
+
+
 def division_sites(fx):
     for b in fx.bodies:
         for bi, blk in enumerate(b.blocks):
             t = blk["t"]
             if t["k"] == "assert" and t["kind"] in ("DivisionByZero", "RemainderByZero") and b.reachable(bi):
+                yield b, bi, t
+            elif t["k"] == "call" and b.reachable(bi) and len(t["args"]) == 2 and (
+                    DIV_CALL.match(t["callee"].get("rpath") or "") or DIV_HELPER.search(t["callee"].get("path") or "")):
+                # `a / b` with a reference operand, div_euclid / rem_euclid / div_ceil / next_multiple_of: calls that panic on a zero divisor
                 yield b, bi, t
 
 
@@ -100,10 +109,15 @@ def rule_div(run, fx, rule="C01-d", floors=True, select=None):
             continue
         n += 1
         prov = sym.Prov(b)
-        c = sym.strip(prov.op(t["cond"]))
         d = None
-        if c[0] == "bin" and c[1] == "Eq":
-            d = sym.strip(c[2])
+        if t["k"] == "call":
+            d = sym.strip(prov.op(t["args"][1]))
+            if ((t["args"][1].get("p") or {}).get("ty") or t["args"][1].get("ty") or "").startswith("&"):
+                d = sym.strip(guards.canon(("deref", d)))
+        else:
+            c = sym.strip(prov.op(t["cond"]))
+            if c[0] == "bin" and c[1] == "Eq":
+                d = sym.strip(c[2])
         key = "div|%s|%s" % (b.root, sym.show(d)[:80] if d else "?")
         if d is None:
             run.fail(rule, key, "unrecognised division assert shape", b.loc(t), ledger="division")
